@@ -30,6 +30,14 @@ Definition dec_matches_spec : bool :=
 
 
 
+(* 1b. every data type has a destination of its own in the client: no two entries of the dispatch table name the same
+   field, so decoding a packet of one type never overwrites the value decoded for another *)
+Fixpoint slot_in (n : string) (l : list string) : bool :=
+  match l with [] => false | x :: t => String.eqb n x || slot_in n t end.
+Fixpoint no_dup_slots (l : list string) : bool :=
+  match l with [] => true | x :: t => negb (slot_in x t) && no_dup_slots t end.
+Definition slots_distinct : bool := no_dup_slots (map (fun d : Z * (string * string) => fst (snd d)) dispatch_table).
+
 (* 2. encoder stores of the fixed-layout types coincide with the decoder layout: same field at the same
    offset with the same width, in order, covering the data exactly *)
 Fixpoint stores_match (off : Z) (stores : list (Z * fkind * string)) (l : list (string * fkind)) : bool :=
